@@ -1,0 +1,58 @@
+// +build verif,!verifgen
+
+package app
+
+import (
+	"github.com/pkg/errors"
+
+	"github.com/Oneledger/protocol/data/bitcoin"
+)
+
+// verifPrepareOptions mirrors the option-loading statements of Prepare(). The simulator
+// normally replaces this file (tag verifgen) with one generated from the live Prepare()
+// source so that edits there are seen; this copy is the fallback.
+func (app *App) verifPrepareOptions() error {
+	if !app.Context.govern.InitialChain() {
+		currencies, err := app.Context.govern.WithHeight(app.header.Height).GetCurrencies()
+		if err != nil {
+			return err
+		}
+		for _, currency := range currencies {
+			err := app.Context.currencies.Register(currency)
+			if err != nil {
+				return errors.Wrapf(err, "failed to register currency %s", currency.Name)
+			}
+		}
+
+		feeOpt, err := app.Context.govern.WithHeight(app.header.Height).GetFeeOption()
+		if err != nil {
+			return err
+		}
+		app.Context.feePool.SetupOpt(feeOpt)
+
+		cdOpt, err := app.Context.govern.WithHeight(app.header.Height).GetETHChainDriverOption()
+		if err != nil {
+			return err
+		}
+		app.Context.ethTrackers.SetupOption(cdOpt)
+
+		btcOption, err := app.Context.govern.WithHeight(app.header.Height).GetBTCChainDriverOption()
+		if err != nil {
+			return err
+		}
+		btcConfig := bitcoin.NewBTCConfig(app.Context.cfg.ChainDriver, btcOption.ChainType)
+		app.Context.btcTrackers.SetConfig(btcConfig)
+
+		propOpt, err := app.Context.govern.WithHeight(app.header.Height).GetProposalOptions()
+		if err != nil {
+			return err
+		}
+		app.Context.proposalMaster.Proposal.SetOptions(propOpt)
+		rewardsOpt, err := app.Context.govern.GetRewardOptions()
+		if err != nil {
+			return err
+		}
+		app.Context.rewardMaster.SetOptions(rewardsOpt)
+	}
+	return nil
+}
